@@ -1,3 +1,13 @@
 import Uflow.Props.C05
 open Uflow.Props.C05
 #print axioms C05_pidSub_lt
+#print axioms C05_ghost_run_state
+#print axioms C05_ghost_entry_sound
+#print axioms C05_emit_order
+#print axioms C05_emitted_sublist
+#print axioms C05_ids_consecutive
+#print axioms C05_ids_distinct
+#print axioms C05_ids_consecutive_needs_valid_base
+#print axioms C05_window_bound
+#print axioms C05_alloc_bound
+#print axioms Uflow.PSend.histOps_run
